@@ -88,7 +88,7 @@ def handle(req):
         return out
     if op == "direct":
         from sasmodels.data import empty_data1D, empty_data2D
-        key = (req["model"], json.dumps(req["q"]))
+        key = (req["model"], json.dumps(req["q"]), req["cutoff"])     # the cutoff is fixed when the calculator is built
         if key not in S.direct:
             q = qvec(req)
             data = empty_data1D(q[0]) if len(q) == 1 else None
@@ -108,6 +108,19 @@ def handle(req):
         if op == "sasview_clone":
             m = m.clone()
         m.cutoff = req["cutoff"]
+        # the request names the disperser of every parameter: Gaussian objects unless an array distribution is given
+        from sasmodels import weights as _w
+        arrays = req.get("arrays", {})
+        held = {}
+        for pname, d in list(m.dispersion.items()):
+            if pname in arrays:
+                disp = _w.ArrayDispersion()
+                vals = np.array(arrays[pname]["values"], "d"); wts = np.array(arrays[pname]["weights"], "d")
+                held[pname] = (vals, wts, vals.copy(), wts.copy())
+                disp.set_weights(vals, wts)
+                m.set_dispersion(pname, disp)
+            elif d.get("type") != "gaussian":
+                m.set_dispersion(pname, _w.GaussianDispersion())
         for k, v in req["settings"]:
             m.setParam(k, v)
         q = qvec(req)
@@ -115,7 +128,7 @@ def handle(req):
         before = copy.deepcopy(arg)
         r = m.evalDistribution(arg)
         out["result"] = hexs(r)
-        out["args_unchanged"] = same(before, arg)
+        out["args_unchanged"] = same(before, arg) and all(same(v, v0) and same(w, w0) for v, w, v0, w0 in held.values())
         return out
     raise ValueError(op)
 
@@ -182,7 +195,17 @@ def gen_pars(info, rng, dim):
     return pars
 
 
-def sasview_settings(pars):
+def sasview_settings(pars, info=None):
+    """A SasviewModel is a stateful object (setParam persists), so a request lists EVERY parameter and every
+    dispersity field: the same request then means the same object state, whatever was set before."""
+    if info is not None:
+        full = {}
+        for p in info.parameters.call_parameters:
+            full[p.name] = float(p.default)
+            if p.polydisperse:
+                full[p.name + "_pd"] = 0.0; full[p.name + "_pd_n"] = 35; full[p.name + "_pd_nsigma"] = 3.0
+        full.update(pars)
+        pars = full
     out = []
     for k, v in pars.items():
         if k.endswith("_pd_type"):
@@ -219,7 +242,17 @@ def gen_history(rng, infos, length):
         elif r < 0.30 and dim == "1d" and "@" not in model and "+" not in model:
             pars = gen_pars(info, rng, dim)
             pars = {k: v for k, v in pars.items() if not k.endswith("_pd_type")}
-            reqs.append(dict(op=rng.choice(["sasview", "sasview_clone"]), model=model, q=q, cutoff=cutoff, settings=sasview_settings(pars)))
+            req = dict(op=rng.choice(["sasview", "sasview_clone"]), model=model, q=q, cutoff=cutoff, settings=sasview_settings(pars, info))
+            pd1 = [n for n in info.parameters.pd_1d if n in pars and pars[n] > 0]
+            if pd1 and rng.random() < 0.4:
+                # an empirical (array) distribution supplied by the caller: values around the centre, weights that
+                # are not normalised
+                pn = rng.choice(pd1)
+                k = rng.choice([1, 2, 5, 7, 12])
+                vals = sorted(pars[pn] * rng.uniform(0.6, 1.5) for _ in range(k))
+                wts = [rng.choice([0.05, 0.1, 0.2, 0.3, 0.55, 0.7, 1.0, 2.5]) for _ in range(k)]
+                req["arrays"] = {pn: dict(values=vals, weights=wts)}
+            reqs.append(req)
         elif r < 0.42 and dim == "1d":
             reqs.append(dict(op="direct", model=model, q=q, cutoff=cutoff, pars=gen_pars(info, rng, dim)))
         elif r < 0.60 and "@" not in model and "+" not in model:
